@@ -15,7 +15,7 @@ class C15(Prop):
                    '(see known finding K-1)']
 
     def streams(self, rng, tier):
-        n = 1500 if tier == 'quick' else scale(150000)
+        n = 3000 if tier == 'quick' else scale(150000)
         roots = [None, True, 0, 1.5, 'x', [], {}, {'<class>': 'root'}, {'<class>': 'root', 'elements': []},
                  {'<class>': 'root', 'elements': [], 'working-directory': 5},
                  {'<class>': 'root', 'elements': [{'<class>': 5}], 'working-directory': ''},
